@@ -315,7 +315,7 @@ def _enclosing_stmt(fnode, node):
 
 
 CLAIM = {
-    "text": "Decides pickle coverage for all nine classes with a custom __getstate__: the set of attributes each drops, nulls or adds is extracted from the source, and an interprocedural must-write-before-read analysis on the receiver (following self.m(), super().m(), property getters/setters) proves that each dropped attribute is re-established by the resume entry point (or __setstate__, or a reviewed lazy rebuilding site whose ordering is itself checked) before anything on that path reads it - for every in-package subclass that inherits the entry point. Also decides: pickle-only attributes (mask, weights_file, resume_populated, _previous_*) are written on every __getstate__ path and read only on the resume path; evaluation counters/times are augmented not assigned; sampling_time is never reset; every sampling loop refreshes the stale pickled start time before the first checkpoint (found missing in the importance sampler: repaired); no local in the ~100-function resume call tree can be unbound (found in FlowProposal.resume: repaired).",
+    "text": "Decides pickle coverage for all nine classes with a custom __getstate__: the set of attributes each drops, nulls or adds is extracted from the source, and an interprocedural must-write-before-read analysis on the receiver (following self.m(), super().m(), property getters/setters) proves that each dropped attribute is re-established by the resume entry point (or __setstate__, or a reviewed lazy rebuilding site whose ordering is itself checked) before anything on that path reads it - for every in-package subclass that inherits the entry point. Also decides: pickle-only attributes (mask, weights_file, resume_populated, _previous_*) are written on every __getstate__ path and read only on the resume path; evaluation counters/times are augmented not assigned; sampling_time is never reset; every sampling loop refreshes the stale pickled start time before the first checkpoint (found missing in the importance sampler: repaired); no local in the ~100-function resume call tree can be unbound (found in FlowProposal.resume: repaired). On resume the density table of each INS store is recomputed at the samples of that same store.",
     "note": "Does not decide observational equality of the restored state (needs a run), float32 agreement of recomputed densities, or multi-kill histories beyond C11/C13. Trusted: pickle round-trips attributes that __getstate__ keeps.",
 }
 
